@@ -30,7 +30,7 @@ MANIFEST = {
     'technique': 'runtime monitor on parse() with renderer-based expectations for partial texts and zone spellings, plus relational (fuzzy vs non-fuzzy, with-tokens vs fuzzy) and conservation checks on skipped tokens',
     'level_text': 'The option semantics are exercised on tens of thousands of seeded partial renderings, zone spellings and filler '
                   'sentences under four process time zones; expectations are computed independently (or relationally where the '
-                  'property is relational).  One open finding (K6) is classified by mechanism.  Exploration level.',
+                  'property is relational).  Exploration level.',
     'level_note': 'Trusts the renderer, CPython datetime and the C library\'s local-time names; tzlocal behaviour itself is C08/C04\'s subject.',
 }
 PLAN = {'quick': {'shards': 4, 'timeout': 400, 'budget': 45},
@@ -457,10 +457,7 @@ def wl_relation(ctx, P, rng, tz):
     elif not in_order_substrings(r2[1][1], text.replace('\x00', '')):
         bad = 'skipped tokens %r are not ordered substrings' % (r2[1][1],)
     if bad:
-        if ampm_tokens_after_hour(text) >= 2:
-            ctx.known_finding('K6', '%r: %s' % (text, bad), case)
-        else:
-            ctx.violation('fuzzy-relation', case, bad)
+        ctx.violation('fuzzy-relation', case, bad)
 
 
 def run(ctx):
@@ -546,10 +543,7 @@ def replay(ctx, case):
             r0, r1 = call(P.parse, text, **kw), call(P.parse, text, fuzzy=True, **kw)
             ctx.ev()
             if r0[0] == 'ok' and (r1[0] != 'ok' or mon_parse.describe_value(r1[1]) != mon_parse.describe_value(r0[1])):
-                if ampm_tokens_after_hour(text) >= 2:
-                    ctx.known_finding('K6', text, case)
-                else:
-                    ctx.violation('fuzzy-relation', case, '%r vs %r' % (r0[1], r1[1]))
+                ctx.violation('fuzzy-relation', case, '%r vs %r' % (r0[1], r1[1]))
         elif wl == 'fuzzy':
             r = call(P.parse, case['sentence'], fuzzy=True, **case.get('flags', {}))
             ctx.ev()
